@@ -285,6 +285,13 @@ func (p *parser) parsePostfix() (*Expr, error) {
 		case "[":
 			p.next()
 			var lo, hi *Expr
+			// x[*] : all elements (frame locations)
+			if p.isOp("*") && p.p+1 < len(p.toks) && p.toks[p.p+1].kind == "op" && p.toks[p.p+1].text == "]" {
+				p.next()
+				p.next()
+				x = &Expr{Op: "idx", Args: []*Expr{x, {Op: "id", Tok: "*"}}, Pos: t.pos}
+				continue
+			}
 			if !p.isOp(":") {
 				lo, err = p.parseExpr(0)
 				if err != nil {
